@@ -56,6 +56,7 @@ def run(ctx):
     ctx.do(rule_definition_of_named_type)
     ctx.do(rule_integer_tests_exclude_bool)
     ctx.do(rule_ignorecase_is_ascii)
+    ctx.do(rule_floats_finite)
     ctx.do(rule_helpers_examine_every_pair)
     # timestamps are emitted with the digits their slot prescribes only if every value went through the truncation pipeline
     from . import C15
@@ -510,6 +511,35 @@ def rule_helpers_examine_every_pair(ctx, rule_id="C02.constraints"):
         raise AnalysisError("fewer than 2 loops in the co-constraint helpers (%d)" % n)
 
 
+def rule_floats_finite(ctx, rule_id="C02.clean-contract"):
+    """JSON has no NaN and no infinities, and every comparison with NaN is false: `value < min` / `value > max` both let NaN
+    through, so a latitude of NaN (which Python's decoder accepts as input) is returned as a validated object that cannot be
+    serialised.  FloatProperty.clean refuses non-finite values explicitly on every path before it returns (math.isfinite /
+    isnan + isinf), the range comparisons cannot."""
+    run = ctx.run
+    prog = ctx.prog
+    fi = prog.cls("stix2.properties::FloatProperty").methods.get("clean")
+    if fi is None:
+        raise AnalysisError("anchor missing: FloatProperty.clean")
+    g = cfg_of(fi)
+
+    def refuses(nd):
+        return nd.kind == "test" and isinstance(nd.ast, ast.If) and any(
+            isinstance(c, ast.Call) and norm(c.func) in ("math.isfinite", "math.isnan", "math.isinf", "isfinite", "isnan", "isinf")
+            for c in ast.walk(nd.ast.test)) and any(isinstance(s_, ast.Raise) for s_ in nd.ast.body)
+    rets = [g.node_of(r) for r in returns_of(fi)]
+    bypass = None
+    for rn in rets:
+        p_ = g.path_avoiding(g.entry, rn, refuses, labels_skip=("exc", "raise"))
+        if p_ is not None:
+            bypass = p_
+    run.check(bool(rets) and bypass is None, rule_id, key(fi.module.relpath, fi.qualname, "non-finite-refused"),
+              "a float value can be returned without a finiteness test: NaN passes every range comparison and (like the infinities) "
+              "cannot be written as JSON -- the 'validated' object fails at serialisation", file=fi.module.relpath,
+              line=fi.node.lineno, function=fi.qualname, expected="if not math.isfinite(value): raise ValueError(...)",
+              found="bypass", path=g.describe_path(bypass))
+
+
 def rule_ignorecase_is_ascii(ctx, rule_id="C02.hash-regex"):
     """A str pattern compiled with IGNORECASE and without ASCII folds case by Unicode rules: `[a-z]` then also matches U+017F
     (long s) and U+212A (Kelvin sign).  The value regexes describe ASCII alphabets (hex digits, the ssdeep alphabet); compiled
@@ -606,6 +636,9 @@ def range_guard_table(fi):
         if not any(isinstance(s, ast.Raise) and exc_name(s) == "ValueError" for s in ifn.body):
             continue
         cj = conjuncts(ifn.test)
+        if len(cj) == 1 and norm(cj[0]).replace(" ", "") in ("notmath.isfinite(%s)" % fi.params[1], "math.isnan(%s)ormath.isinf(%s)" % (fi.params[1], fi.params[1])):
+            guards.add(("non-finite", "refused", "unconditional"))
+            continue
         cmp_ = [x for x in cj if isinstance(x, ast.Compare) and len(x.ops) == 1 and not isinstance(x.ops[0], (ast.Is, ast.IsNot))]
         nn = [x for x in cj if isinstance(x, ast.Compare) and len(x.ops) == 1 and isinstance(x.ops[0], ast.IsNot)
               and isinstance(x.comparators[0], ast.Constant) and x.comparators[0].value is None]
@@ -695,6 +728,8 @@ def rule_clean_contract(ctx):
         guards = range_guard_table(fi)
         tables[cid] = guards
         want = {("min", "Lt", "guarded-by-min"), ("max", "Gt", "guarded-by-max")}
+        if cid == "FloatProperty":
+            want = want | {("non-finite", "refused", "unconditional")}       # JSON has no NaN / Infinity
         run.check(guards == want, R, key(rel, fi.qualname, "range-guards"),
                   "range guard table differs (bounds themselves must be legal: strict comparisons)", file=rel,
                   line=fi.node.lineno, function=fi.qualname, expected=sorted(want), found=sorted(guards))
